@@ -23,6 +23,8 @@ fn apply_version(
             let b2 = apply_seq(b, version.operations@);
             valid_seq(b2, final(local_ops)@) && apply_seq(b2, final(local_ops)@) == final(txn).st().tasks
         },
+        //@ob C04 apply_version.own-version-received-back: operations identical to the local ones cancel completely -- nothing is applied twice, nothing is left to re-send
+        r is Ok && old(local_ops)@ == version.operations@ ==> final(local_ops)@.len() == 0 && final(txn).st().tasks == old(txn).st().tasks,
         //@ob C04 C02 apply_version.only-storage-errors
         r matches Err(e) ==> storage_err(e),
 {
@@ -39,6 +41,7 @@ fn apply_version(
                 let bk = apply_seq(b, v.take(it_server_op.index() as int));
                 valid_seq(bk, local_ops@) && apply_seq(bk, local_ops@) == txn.st().tasks
             },
+            l0 == v ==> local_ops@ == v.skip(it_server_op.index() as int) && txn.st().tasks == tasks0,
     {
         let ghost k = it_server_op.index() as int;
         let ghost lk = local_ops@;
@@ -71,6 +74,8 @@ fn apply_version(
                     && valid_seq(apply(bk, s), new_local_ops@)
                     && apply_seq(apply(bk, s), new_local_ops@) == apply_opt(bi, svr_op)
                 },
+                l0 == v ==> lk == v.skip(k) && (it_local_op.index() == 0 ==> svr_op == Some(s) && new_local_ops@.len() == 0)
+                    && (it_local_op.index() >= 1 ==> svr_op is None && new_local_ops@ == lk.subrange(1, it_local_op.index() as int)),
         {
             let ghost i = it_local_op.index() as int;
             let ghost svr0 = svr_op;
@@ -80,6 +85,14 @@ fn apply_version(
                 svr_op = new_server_op;
                 if let Some(o) = new_local_op {
                     new_local_ops.push(o);
+                }
+                proof {
+                    if l0 == v {
+                        // the first local operation IS the incoming one: identical operations cancel
+                        assert(i == 0 && local_op == lk[0] && lk[0] == v[k] && o == s);
+                        lemma_ok_self_cancel(s, (new_server_op, new_local_op));
+                        assert(lk.subrange(1, 1) =~= Seq::<SyncOp>::empty());
+                    }
                 }
                 proof {
                     assert forall|b: State| rebase_pre(b, tasks0, l0, v) implies ({
@@ -101,6 +114,7 @@ fn apply_version(
                 }
             } else {
                 new_local_ops.push(local_op);
+                proof { if l0 == v { assert(lk.subrange(1, i + 1) =~= lk.subrange(1, i).push(lk[i])); } }
                 proof {
                     assert forall|b: State| rebase_pre(b, tasks0, l0, v) implies ({
                         let bk = apply_seq(b, v.take(k));
@@ -126,6 +140,7 @@ fn apply_version(
             transformed_server_ops.push(o);
         }
         *local_ops = new_local_ops;
+        proof { if l0 == v { assert(lk.subrange(1, lk.len() as int) =~= v.skip(k + 1)); } }
         proof {
             assert forall|b: State| rebase_pre(b, tasks0, l0, v) implies ({
                 let bk = apply_seq(b, v.take(k + 1));
@@ -136,7 +151,7 @@ fn apply_version(
             }
         }
     }
-    proof { assert(v.take(v.len() as int) =~= v); }
+    proof { assert(v.take(v.len() as int) =~= v); assert(v.skip(v.len() as int) =~= Seq::<SyncOp>::empty()); }
     Ok(())
 }
 //@end
